@@ -62,6 +62,8 @@ type Explorer struct {
 	maxViol     int
 	verbose     bool
 	forkSites   map[string]int
+	slowest     time.Duration
+	slowestDesc string
 }
 
 func newExplorer(cfg *Config, entry *ssa.Function) *Explorer {
@@ -229,6 +231,7 @@ func (ex *Explorer) Run() {
 
 func (ex *Explorer) runPath(s *Solver, it WorkItem) {
 	p := newPath(ex, s, it)
+	t0 := time.Now()
 	if s != nil {
 		s.vars = &p.vars
 	}
@@ -290,6 +293,14 @@ func (ex *Explorer) runPath(s *Solver, it WorkItem) {
 		s.EndPath()
 	}
 	ex.mu.Lock()
+	if d := time.Since(t0); d > ex.slowest {
+		ex.slowest = d
+		steps := int64(0)
+		if in != nil {
+			steps = in.steps
+		}
+		ex.slowestDesc = fmt.Sprintf("%.2fs, %d steps, %d decisions, end=%s, model=%v", d.Seconds(), steps, len(p.decisions), end, p.modelSummary(12))
+	}
 	ex.paths++
 	ex.branches += p.nBranches
 	ex.ivDecided += p.ivDecided
